@@ -62,7 +62,11 @@ def perturb(rng, t):
     if r < 0.45:
         return m, kind
     nodes = m['nodes']
-    choice = rng.choice(['atomid', 'attr', 'nrexcl', 'edge', 'inter', 'order', 'name', 'oldresid', 'oldresid'])
+    choice = rng.choice(['atomid', 'attr', 'nrexcl', 'edge', 'inter', 'order', 'name', 'oldresid', 'oldresid', 'morei', 'morei'])
+    if choice == 'morei':
+        # the same molecule with one more interaction at the end of a list: the shorter list is a prefix of the longer
+        m['xinter'] = m.get('xinter', 0) + 1
+        return m, 'morei'
     if choice == 'oldresid' and any(nd.get('old') is not None for nd in nodes):
         # the same chain with another input numbering: identical but for the stashed residue numbers
         shift = rng.choice([1, 5, 20])
@@ -140,6 +144,11 @@ def _build(inp):
             mol.add_interaction('bonds', (keys[0], keys[1]), ['1', '0.%d' % (30 + m['inter']), '1250'])
         else:
             mol.add_interaction('position_restraints', (keys[0],), ['1', str(m['inter']), '0', '0'])
+        for x in range(m.get('xinter', 0)):
+            if len(keys) >= 2:
+                mol.add_interaction('bonds', (keys[-1], keys[0]), ['1', '0.9%d' % x, '500'])
+            else:
+                mol.add_interaction('position_restraints', (keys[0],), ['1', '77%d' % x, '0', '0'])
         system.add_molecule(mol)
     return system
 
@@ -222,7 +231,7 @@ def mol_lit(m, resid_input=False):
         zlit(nd['key']), optlit(nd['atomid'], zlit), strlit(nd['name']), strlit(nd['resname']), zlit(written_resid(nd)),
         zlit(other(nd)), zlit(nd['ignored'])))
     return '{| m_nrexcl := %s; m_nodes := %s; m_edges := %s; m_inter := %s |}' % (
-        zlit(m['nrexcl']), nodes, listlit(m['edges'], lambda e: '(%s, %s)' % (zlit(e[0]), zlit(e[1]))), zlit(m['inter']))
+        zlit(m['nrexcl']), nodes, listlit(m['edges'], lambda e: '(%s, %s)' % (zlit(e[0]), zlit(e[1]))), zlit(m['inter'] + 100 * m.get('xinter', 0)))
 
 
 def ident_lit(a):
